@@ -42,6 +42,7 @@ PLAN = {
             {"name": "drops", "flavour": "native", "shards": 2, "shards_thorough": 8},
             {"name": "asan", "flavour": "asan", "shards": 4, "shards_thorough": 16},
             {"name": "asan-drops", "flavour": "asan", "shards": 2, "shards_thorough": 8},
+            {"name": "tsan", "flavour": "tsan", "shards": 2, "shards_thorough": 16, "scale": 0.3, "timeout": 1200},
             {"name": "miri", "flavour": "miri", "shards": 10, "shards_thorough": 96, "miriflags": TB + " " + IGN, "timeout": 1200},
             {"name": "miri-drops", "flavour": "miri", "shards": 4, "shards_thorough": 32, "miriflags": TB + " " + IGN, "timeout": 1200},
         ],
@@ -100,6 +101,7 @@ PLAN = {
         "legs": [
             {"name": "cells", "flavour": "native", "shards": 4, "shards_thorough": 16},
             {"name": "global", "flavour": "native", "shards": 12, "shards_thorough": 200},
+            {"name": "tsan", "flavour": "tsan", "shards": 2, "shards_thorough": 16, "scale": 0.05, "timeout": 1200},
             {"name": "miri", "leg": "miri", "flavour": "miri", "shards": 12, "shards_thorough": 96, "miriflags": IGN, "timeout": 1200},
         ],
     },
@@ -116,6 +118,7 @@ PLAN = {
         "legs": [
             {"name": "trials", "flavour": "native", "shards": 4, "shards_thorough": 16},
             {"name": "install", "flavour": "native", "shards": 8, "shards_thorough": 64, "timeout": 120},
+            {"name": "tsan", "flavour": "tsan", "shards": 2, "shards_thorough": 8, "scale": 0.1, "timeout": 1200, "thorough_only": True},
             {"name": "miri", "leg": "miri", "flavour": "miri", "shards": 8, "shards_thorough": 64, "timeout": 1200},
         ],
     },
@@ -151,6 +154,7 @@ PLAN = {
             {"name": "seq-1cpu", "leg": "seq", "flavour": "native", "shards": 2, "shards_thorough": 6, "cpus": "0", "scale": 0.5},
             {"name": "race", "flavour": "native", "shards": 4, "shards_thorough": 16},
             {"name": "race-1cpu", "leg": "race", "flavour": "native", "shards": 1, "shards_thorough": 4, "cpus": "1", "scale": 0.2},
+            {"name": "tsan", "flavour": "tsan", "shards": 2, "shards_thorough": 8, "scale": 0.2, "timeout": 1200, "thorough_only": True},
             {"name": "miri", "flavour": "miri", "shards": 6, "shards_thorough": 48, "miriflags": IGN, "timeout": 1500},
         ],
     },
@@ -169,6 +173,7 @@ PLAN = {
             {"name": "cycles", "flavour": "native", "shards": 2, "shards_thorough": 8},
             {"name": "uniform", "flavour": "native", "shards": 7, "shards_thorough": 14},
             {"name": "overlap", "flavour": "native", "shards": 4, "shards_thorough": 16},
+            {"name": "tsan", "flavour": "tsan", "shards": 2, "shards_thorough": 8, "scale": 0.2, "timeout": 1200, "thorough_only": True},
             {"name": "miri", "flavour": "miri", "shards": 6, "shards_thorough": 48, "timeout": 1500},
         ],
     },
@@ -266,6 +271,7 @@ PLAN = {
         "legs": [
             {"name": "flush", "flavour": "native", "shards": 4, "shards_thorough": 16},
             {"name": "socket", "flavour": "native", "shards": 6, "shards_thorough": 60, "timeout": 120},
+            {"name": "tsan", "flavour": "tsan", "shards": 2, "shards_thorough": 8, "timeout": 1200, "thorough_only": True},
             {"name": "miri", "flavour": "miri", "shards": 6, "shards_thorough": 48, "miriflags": TB + " " + IGN, "timeout": 1500},
         ],
     },
